@@ -57,14 +57,16 @@ theorem setItem_preserves_operand (st : Store) (self : C01.TVal) (a b : Nat) (v 
 
 /-- `failed_call_preserves_args`, uniformity check: the operand of `UniformTime += / -=` is
 unchanged whether the check passes, refuses (non-uniform increments: ValueError) or cannot
-index (`dv[0]` on a 1-element operand: IndexError) -/
+index; an empty operand is refused, a one-element operand is a shift) -/
 theorem checkUniform_preserves_operand (st : Store) (u : TimeUnit) (v : Operand) :
     (checkUniform fixed st u v).1 = st := by
   have hst : ∀ cfg : Cfg, (checkUniform cfg st u v).1
       = (convertOperand cfg.uniformInPlace st (C17.factorOf u) v).1 := by
     intro cfg
     simp only [checkUniform]
-    split_ifs <;> rfl
+    split_ifs
+    · rfl
+    · split <;> rfl
   rw [hst]
   exact convertOperand_pure st _ v
 
@@ -72,10 +74,17 @@ theorem checkUniform_preserves_operand (st : Store) (u : TimeUnit) (v : Operand)
 theorem checkUniform_current (st : Store) (u : TimeUnit) (v : Operand) :
     (checkUniform current st u v).1 = st := checkUniform_preserves_operand st u v
 
-/-- the refusal itself is the C17 one: what `checkUniform` answers is `rampStep` of the scaled values -/
+/-- what `checkUniform` answers for a 1-d int64 operand: an empty operand is refused, a one-element operand is a
+shift (step 0), and from two elements on it is the C17 uniformity check `rampStep` of the scaled values -/
 theorem checkUniform_result (st : Store) (u : TimeUnit) (id : Nat) :
-    (checkUniform fixed st u (.arr64 id)).2 = C17.rampStep ((aget st id).map (· * C17.factorOf u)) := by
-  simp [checkUniform, fixed, convertOperand]
+    (checkUniform fixed st u (.arr64 id)).2 =
+      (match (aget st id).map (· * C17.factorOf u) with
+        | [] => .error .valueError
+        | [_] => .ok 0
+        | vals => C17.rampStep vals) := by
+  simp only [checkUniform, fixed, convertOperand, Bool.false_eq_true, if_false]
+  generalize (aget st id).map (· * C17.factorOf u) = vals
+  rcases vals with _ | ⟨a, _ | ⟨b, l⟩⟩ <;> rfl
 
 /-! ### `periodogram_csd` -/
 
